@@ -8,9 +8,12 @@
      Contraction   Out[i][j][c] = SUM_k B[i][c][k] * T[j][c][k]
      Functional    B[i] depends only on WHICH function i is (same id => same features in every batch composition and
                    for every way of supplying the branch input); T[j] only on which location j is
-     History       after fix_input(f) every forward uses f until the next fix_input
+     History       after fix_input(f) every forward uses f until the next fix_input; a forward with an explicit branch
+                   input uses the CURRENT content of that input and the CURRENT weights, whatever was computed before for
+                   the same object
      FastEqPlain   the shared-trunk-input layers and plain linear layers with the same weights give identical
-                   outputs, first and second input derivatives and parameter gradients                       *)
+                   outputs, first and second input derivatives and parameter gradients (also of losses that contain
+                   input derivatives)                       *)
 EXTENDS Integers, Sequences, FiniteSets
 RECURSIVE SumS(_)
 SumS(s) == IF s = <<>> THEN 0 ELSE Head(s) + SumS(Tail(s))
